@@ -600,17 +600,17 @@ func (pr *ProtoArray) OnPrune(ctx context.Context, anchorRoot Root, anchorSlot S
 	var pruned []prunedNode
 	for i := pr.indexOffset; i < anchorIndex; i++ {
 		node := &pr.nodes[i-pr.indexOffset]
-		if pr.sink != nil {
-			canonical := node.BestDescendant == headIndex
-			pruned = append(pruned, prunedNode{canonical, node})
-		}
+		canonical := node.BestDescendant == headIndex
+		pruned = append(pruned, prunedNode{canonical, node})
 	}
-	// Send pruned nodes to the node sink (empty if no sink). Continue until it fails.
+	// Send pruned nodes to the node sink (if there is one). Continue until it fails.
 	// Only prune what we successfully sent to the sink.
 	prunedUpTo := 0
 	for _, p := range pruned {
-		if err = pr.sink.OnPrunedNode(ctx, p.node.Ref, p.canonical); err != nil {
-			break
+		if pr.sink != nil {
+			if err = pr.sink.OnPrunedNode(ctx, p.node.Ref, p.canonical); err != nil {
+				break
+			}
 		}
 		prunedUpTo++
 	}
